@@ -14,8 +14,8 @@ use wow_mpq::{AddFileOptions, Archive, MutableArchive};
 
 /// name pool: indices 0..POOL. 0..=3 share a start slot modulo 16 (probe chains); 8, 9 are
 /// case/slash aliases of 0 and 4.
-const POOL: usize = 30;
-const CORE: usize = 10;
+const POOL: usize = 32;
+const CORE: usize = 12;
 
 fn pool() -> Vec<String> {
     // four names colliding modulo 16 found by reference hashing (deterministic search)
@@ -36,6 +36,10 @@ fn pool() -> Vec<String> {
     v.push("ab.txt".to_string()); // "b.txt" is a substring of this name
     v.push(v[0].to_ascii_uppercase().replace('\\', "/")); // alias of 0
     v.push("dir/sub/FILE.TXT".to_string()); // alias of 4
+    // ordinary user files whose names look like the archive's internal ones: they are content and
+    // must survive every operation (compaction carries over everything but the regenerated specials)
+    v.push("(patch_metadata)".to_string());
+    v.push("(user data)".to_string());
     // 20 extra names used to fill the 16-slot hash table
     for i in 0..20 {
         v.push(format!("fill\\n{i}.bin"));
@@ -239,7 +243,7 @@ fn run_history(h: &History) -> Result<(), Fail> {
                 Fail::new(format!("{pre}:list-fails-after-reopen:{}:[{feat}]", err_kind(&e)), format!("{e}"))
             })?;
             let got: std::collections::BTreeSet<String> =
-                listed.iter().map(|e| fold(&e.name)).filter(|n| !n.starts_with('(')).collect();
+                listed.iter().map(|e| fold(&e.name)).filter(|n| !matches!(n.as_str(), "(LISTFILE)" | "(ATTRIBUTES)" | "(SIGNATURE)")).collect();
             let want: std::collections::BTreeSet<String> = model.keys().cloned().collect();
             if got != want {
                 let missing: Vec<_> = want.difference(&got).collect();
